@@ -20,7 +20,7 @@ def match_finding(findings, prop, unit, obligation=None, cls=None):
         if f.get("property") != prop or f.get("status") != "known":
             continue
         m = f.get("match", {})
-        if "unit" in m and not fnmatch.fnmatch(unit, m["unit"]):
+        if "unit" in m and not any(fnmatch.fnmatch(unit, u) for u in (m["unit"] if isinstance(m["unit"], list) else [m["unit"]])):
             continue
         def _any(val, pats):
             pats = pats if isinstance(pats, list) else [pats]
@@ -152,6 +152,10 @@ def main(argv=None):
     def _new_native(rr):
         return [f for f in rr["failures"] if not match_finding(findings, prop, rr["unit"], cls=f["cls"] or "?")]
     any_new_native = any(_new_native(rr) for rr in results)
+    # units with a counter-model that was replayed natively: their other open obligations are listed with it, not reported apart
+    confirmed_units = {rr["unit"] for rr in results for o in rr["obligations"]
+                       if (o.get("native") or {}).get("confirmed") and o["expect"] == "proved" and o["status"] != "proved"
+                       and not match_finding(findings, prop, rr["unit"], obligation=o["name"])}
     attributed = []
     for r in results:
         exp_u = expected.get("units", {}).get(r["unit"], {})
@@ -183,7 +187,7 @@ def main(argv=None):
                                                                      solver_output=o.get("detail"), goal=o.get("goal")))
                 known.append((kf, rp, o))
                 continue
-            if _new_native(r) or any_new_native:
+            if (_new_native(r) or any_new_native or r["unit"] in confirmed_units) and not (o.get("native") or {}).get("confirmed"):
                 # a ring found a NEW failing input for this property (reported with its replay); the open obligation is
                 # attributed to it (listed, not a second verdict)
                 attributed.append((o["name"], r["unit"], o["status"]))
@@ -191,8 +195,12 @@ def main(argv=None):
             was_proved = o["name"] in exp_u.get("proved", [])
             rp = write_replay(prop, r["unit"], o["name"], dict(kind="obligation", status=o["status"],
                                                                  solver=o.get("solver"), solver_output=o.get("detail"),
-                                                                 goal=o.get("goal"), files_changed=changed,
-                                                                 note="no concrete failing input found by finite instantiation / native rings"))
+                                                                 goal=o.get("goal"), files_changed=changed, model=o.get("model"),
+                                                                 native_replay=o.get("native"),
+                                                                 note=("the counter-model was replayed on the real code with ordinary numpy arrays "
+                                                                       "(native_replay.inputs) and the obligation is false there as well")
+                                                                 if (o.get("native") or {}).get("confirmed") else
+                                                                 "no concrete failing input found by finite instantiation / native rings"))
             if o["kind"] == "cover" and changed and r["mode"] != "R":
                 # a cover ("returns on some path", "every symbolic loop was cut") that fails on CHANGED source says the harness did
                 # not get through the new code, nothing about the property
@@ -213,6 +221,10 @@ def main(argv=None):
                 continue
             if exp_u and not changed:
                 undecided.append((o["name"], "source digest unchanged; solver said %s" % o["status"]))
+            elif (o.get("native") or {}).get("confirmed"):
+                violations.append(("VIOLATION property=%s replay=%s" % (prop, rp), o["name"],
+                                   "obligation refuted (%s) and its counter-model replayed on the real code%s" % (
+                                       o.get("solver"), "; proved on the pinned tree" if was_proved else "")))
             else:
                 violations.append(("VIOLATION property=%s replay=%s no-failing-input-found" % (prop, rp), o["name"],
                                    "obligation %s (%s)%s" % (o["status"], o.get("solver"),
